@@ -45,6 +45,8 @@ Record flags := mkFlags {
   fl_oversize_uncached : bool; (* update_file_futures_and_memory: contents larger than max_memory skip recover_memory
                              (no assertion) and take the not-cached branch                                    *)
   fl_else_drops_heap : bool;   (* ... whose not-cached branch also removes the file's access-time item             *)
+  fl_load_reads_whole : bool;  (* _load_file does file.read() (the whole file at the time of the read); false = it reads at
+                             most the size get_file took with os.path.getsize before its locked block              *)
   fl_busy_guard : bool    (* update_file waits for (and retries after) an in-flight load instead of unloading its
                              entry; unload_file leaves an entry whose future is not done alone                  *)
 }.
@@ -182,8 +184,11 @@ Definition task_step (fl : flags) (max : Z) (c : core) (k : task) : option (core
   | T2 =>
       match k_kind k with
       | KLoad =>
+          (* until read() a load task's k_data holds [claim], the size argument it was submitted with (if any) *)
           let d := match lookup f (disk c) with Some d => d | None => [] end in
-          Some (c, mkTask (k_kind k) f d T3 None)
+          let d' := if fl_load_reads_whole fl then d
+                    else firstn (Z.to_nat (match k_data k with cl :: _ => cl | [] => 0 end)) d in
+          Some (c, mkTask (k_kind k) f d' T3 None)
       | KWrite =>
           (* close() flushes the buffered payload at offset 0 of the descriptor opened at T1: the first
              len(payload) bytes are overwritten, whatever another writer put beyond them stays *)
@@ -293,7 +298,7 @@ Definition client_step (fl : flags) (max : Z) (s : gstate) (t : nat) (cl : clien
             let id := length (g_tasks s) in
             upd (mkClient (c_ops cl) i (CWait id false))
                 (mkCore (mem c) (aset f (mkE (fl_get_w fl) claim id) (futs c)) (heap c) (disk c))
-                (g_tasks s ++ [mkTask KLoad f [] T1 None]) [] (g_k s)
+                (g_tasks s ++ [mkTask KLoad f [claim] T1 None]) [] (g_k s)
         | Some e =>
             let h := if (negb (fl_touch_if_done fl) || task_done (g_tasks s) (e_fut e)) then touch f (heap c) else heap c in
             upd (mkClient (c_ops cl) i (CWait (e_fut e) false))
